@@ -565,6 +565,8 @@ pub struct Space {
     pub prior_entries: Vec<Entry>,
     /// each prior: the sequence of (a, b) indices into prior_entries that built it
     pub priors: Vec<(Vec<(usize, usize)>, Rc<SubstitutionSet<'static>>)>,
+    /// the cap on the number of prior states was reached: the depth is then not covered completely
+    pub cap_hit: bool,
     pub name: String,
 }
 
@@ -608,7 +610,8 @@ fn build_space(name: &str, prior_u: &[T], depth: usize, pair_u: &[T], with_parse
         }
         frontier = next;
     }
-    Space { entries, prior_entries, priors, name: name.to_string() }
+    let cap_hit = priors.len() >= max_priors;
+    Space { entries, prior_entries, priors, name: name.to_string(), cap_hit }
 }
 
 pub fn spaces(tier: &str) -> Vec<Space> {
@@ -625,7 +628,10 @@ pub fn spaces(tier: &str) -> Vec<Space> {
     v.push(build_space("func", &func_priors(), 1, &pu, false, 100_000));
     if thorough {
         v.push(build_space("small-depth2", &u_small(), 2, &u_small(), false, 200_000));
-        v.push(build_space("full-depth2", &u_small(), 2, &u_full(false), false, 400));
+        v.push(build_space("full-depth2", &u_small(), 2, &u_full(false), false, 4_000));
+        v.push(build_space("small-depth3", &u_small(), 3, &u_small(), false, 60_000));
+        v.push(build_space("full-depth3", &u_small(), 3, &u_full(false), false, 60_000));
+        v.push(build_space("small-depth4", &u_small(), 4, &u_small(), false, 60_000));
     }
     v
 }
@@ -644,6 +650,11 @@ pub fn worker(tier: &str) {
     let mut emitted: HashMap<(String, String), u32> = HashMap::new();
     let mut samples = 0;
     for sp in &sps {
+        if w.shard == 0 && w.describe.is_none() {
+            w.count(&format!("space.{}.prior_states", sp.name), sp.priors.len() as u64);
+            w.count(&format!("space.{}.pair_entries", sp.name), sp.entries.len() as u64);
+            w.count(&format!("space.{}.prior_cap_hit", sp.name), sp.cap_hit as u64);
+        }
         for (pi, (_ops, prior)) in sp.priors.iter().enumerate() {
             let psub = decode_ss(prior);
             w.distinct("states", &ss_fingerprint(prior));
